@@ -452,7 +452,7 @@ def run_batched(ctx, module, cs, nbatch=3, nproc=16):
 def run(ctx):
     build.ensure("rel")
     ctx.extra["reference_self_test"] = efcrows.self_test()
-    cs = cases(ctx, ngen=ctx.pick(70, 900), npile=ctx.pick(40, 500), ncorpus=ctx.pick(20, 120), nstate=ctx.pick(2, 4), nconf=ctx.pick(8, 12))
+    cs = cases(ctx, ngen=ctx.pick(70, 600), npile=ctx.pick(40, 350), ncorpus=ctx.pick(20, 100), nstate=ctx.pick(2, 4), nconf=ctx.pick(8, 12))
     run_batched(ctx, "vf.props.c11", cs)
     n = max(1, ctx.counters.get("forward_calls", 0))
     skipped = ctx.counters.get("engine_error_skipped", 0)
